@@ -15,7 +15,7 @@ CLAUSES = {
 DEATH = {"panic", "abort", "hang"}
 
 DEVS = ["silent_cancel_drop", "join_no_recheck", "cancel_skip_unsettled", "stop_timeout_ok", "keepalive_precedence",
-        "drop_undoes_cancel", "abandoned_stays_running"]
+        "drop_undoes_cancel", "abandoned_stays_running", "count_before_create"]
 
 
 def cfg(nt, nw, mx, mn, ms, ops, waiters, view):
